@@ -18,11 +18,12 @@ VARIABLES pool, hist
 vars == <<pool, hist>>
 
 OutFile == IF "GEN_OUT" \in DOMAIN IOEnv THEN IOEnv.GEN_OUT ELSE "/dev/null"
-Sim == MODE = "sim"
+Sim == MODE \in {"sim", "simbig"}
+Big == MODE = "simbig"              \* the two equal grids are the long grid L16 (15 intervals): size-dependent paths inside histories
 
 Slots == 1..NS
 Work == IF Sim THEN 4..NS ELSE 4..5 \* slots 1..3 keep the three grids
-GA == E4
+GA == IF Big THEN L16 ELSE E4
 GB == Q(<<0, 2, 7>>)                \* logically different, shorter grid
 
 Gs(p) == {i \in Slots : p[i].k = "grid"}
@@ -31,7 +32,8 @@ Ps(p) == {i \in Slots : p[i].k = "spl"}
 Live(p) == {i \in Slots : p[i].k # "null"}
 LowP(p) == {i \in Ps(p) : p[i].o <= 3}
 
-Wins == ValidWindows(4)            \* a window that does not fit the chosen grid is a refused construction
+\* a window that does not fit the chosen grid is a refused construction
+Wins == IF Big THEN LongWindows(16) \cup {<<0, 3>>, <<1, 4>>, <<0, 4>>, <<2, 4>>, <<1, 3>>} ELSE ValidWindows(4)
 BadWins == {<<3, 2>>, <<0, 5>>, <<4, 4>>, <<2, 2>>}
 Coefs(n, o) == IF n = 0 THEN {<<>>} ELSE {Generic(n, o, 0), Generic(n, o, 1), HolesC(n, o)}
 Ks == IF Sim THEN {RTwo, FromInt(-1), R(1, 2)} ELSE {RTwo}
@@ -116,8 +118,8 @@ Setup(w4, o4, w5, o5, w6, o6) ==
 Empty == [i \in Slots |-> Null]
 SetupLen == 6
 
-Init == \E w4 \in (IF Sim THEN {<<0, 4>>, <<0, 3>>, <<1, 4>>} ELSE {<<0, 3>>}),
-           w5 \in (IF Sim THEN {<<1, 3>>, <<2, 4>>, <<0, 0>>, <<3, 4>>, <<0, 4>>} ELSE {<<1, 4>>}), w6 \in {<<0, 3>>, <<0, 2>>},
+Init == \E w4 \in (IF Big THEN {<<0, 16>>, <<3, 12>>, <<0, 4>>} ELSE IF Sim THEN {<<0, 4>>, <<0, 3>>, <<1, 4>>} ELSE {<<0, 3>>}),
+           w5 \in (IF Big THEN {<<6, 16>>, <<0, 16>>, <<0, 0>>, <<2, 4>>, <<15, 16>>} ELSE IF Sim THEN {<<1, 3>>, <<2, 4>>, <<0, 0>>, <<3, 4>>, <<0, 4>>} ELSE {<<1, 4>>}), w6 \in {<<0, 3>>, <<0, 2>>},
            o4 \in (IF Sim THEN {1, 2} ELSE {2}), o5 \in (IF Sim THEN {0, 1, 2} ELSE {1}), o6 \in {1} :
           /\ hist = Setup(w4, o4, w5, o5, w6, o6)
           /\ pool = Run(Empty, hist)
